@@ -10,7 +10,7 @@ from gen import hx, unhx, pool, rbytes
 
 from spacepackets.ccsds.spacepacket import PacketId, PacketSeqCtrl, PacketType, SequenceFlags, SpacePacketHeader
 from spacepackets.ecss.req_id import RequestId
-from spacepackets.ecss.fields import PacketFieldEnum
+from spacepackets.ecss.fields import PacketFieldEnum, PacketFieldU8, PacketFieldU16, PacketFieldU32
 from spacepackets.ecss.tc import PusTc
 import spacepackets.ecss.pus_1_verification as s1
 from spacepackets.ecss.pus_1_verification import (
@@ -104,8 +104,23 @@ def op_pfe_unpack(a):
     return v
 
 
+_PFE_HELPERS = {"U8": (PacketFieldU8, 8), "U16": (PacketFieldU16, 16), "U32": (PacketFieldU32, 32)}
+
+
 def op_pfe_pack(a):
-    f = PacketFieldEnum(a["pfc"], a["val"])
+    via = a.get("via")           # (ignored by the model op) build through the fixed-width helper class
+    if via:
+        cls, pfc = _PFE_HELPERS[via]
+        f = cls(a["val"])
+        # the helper is the field enumeration of that width: same pfc, value, equality as the generic constructor
+        g = PacketFieldEnum(pfc, a["val"])
+        if int(f.pfc) != pfc or int(f.val) != a["val"] or not (f == g) or not (g == f):
+            raise SelfCheckFailure(f"PacketField{via}({a['val']}) is not the {pfc}-bit field enumeration: pfc={f.pfc} val={f.val} =={f == g}")
+        back = PacketFieldEnum.unpack(bytes(f.pack()), pfc)
+        if not (back == f):
+            raise SelfCheckFailure(f"PacketField{via}: the decoded field does not compare equal to the original")
+    else:
+        f = PacketFieldEnum(a["pfc"], a["val"])
     raw = core.pack_stable(f, "PacketFieldEnum.pack()")
     if len(raw) != f.len():
         raise SelfCheckFailure("PacketFieldEnum: len(pack()) != len()")
@@ -537,6 +552,8 @@ class C15(Prop):
             for v in sorted({0, 1, 255, 256, top - 1, top, 1 << (8 * w - 1), 0x0102030405060708 & top, rng.getrandbits(8 * w)} - {top + 1}):
                 if v <= top:
                     yield Case({"op": "pfe_pack", "pfc": 8 * w, "val": v}, "valid", tag="pfe")
+                    if w in (1, 2, 4):
+                        yield Case({"op": "pfe_pack", "pfc": 8 * w, "val": v, "via": {1: "U8", 2: "U16", 4: "U32"}[w]}, "valid", tag="pfe-helper")
             for pfc in ODD_PFCS[w]:
                 yield Case({"op": "pfe_pack", "pfc": pfc, "val": rand_val(rng, w)}, "valid", tag="pfe-odd-pfc")
             for v in (top + 1, top + 2, 1 << 70):
